@@ -37,6 +37,13 @@ func c15Rules(tier string) []Rule {
 	)
 	ann := func(obj, key string) string { return obj + `\.ObjectMeta\.Annotations\["` + key + `"\]` }
 	return []Rule{
+		// building a launch template never writes into the NodePool's own maps (ToNodeClaim shares the template's label and
+		// annotation maps): a write there changes the object later hashed again
+		core.Custom{ID: "C15.WSET1", Kind: "WSET", Run: func(w *core.World, id string) []core.Result {
+			rs := core.FreshMapUpdates(w, id, "WSET", "sched.NewNodeClaimTemplate", 4, "NewNodeClaimTemplate adds hash annotations and pool labels to fresh maps only")
+			rs = append(rs, core.FreshMapUpdates(w, id, "WSET", "(*sched.NodeClaimTemplate).ToNodeClaim", 2, "ToNodeClaim adds overlay annotations to fresh maps only")...)
+			return rs
+		}},
 		core.Custom{ID: "C15.REG1", Kind: "REG", Run: c15Tags},
 		core.Custom{ID: "C15.REG2", Kind: "REG", Run: func(w *core.World, id string) []core.Result {
 			rs := core.InstrPresent(w, id, "REG", hash, `^call github\.com/mitchellh/hashstructure/v2\.Hash\(<apis/v1\.NodeClaimTemplate>\$0\.Spec\.Template, 2, &local<github\.com/mitchellh/hashstructure/v2\.HashOptions>\)$`, 1, "the hash input is exactly Spec.Template (format v2)")
